@@ -12,8 +12,8 @@ def Linked (net : Net) (core : Bool) (e e' : ASE) : Prop :=
 
 /-- a peer entry of `e`: a peering interface of the AS, MAC under the accumulator `β'` -/
 def PeerOK (mac : MacFn) (net : Net) (ts β' : Nat) (e : ASE) (p : PeerE) : Prop :=
-  ∃ f, (net e.ia).iface p.hop.cIn = some f ∧ p.peerAS = f.nbr ∧ p.peerIf = f.nbrIf ∧
-    p.hop.cEg = e.hop.cEg ∧
+  ∃ f, (net e.ia).iface p.hop.cIn = some f ∧ f.lt = LinkType.peer ∧ p.peerAS = f.nbr ∧
+    p.peerIf = f.nbrIf ∧ p.hop.cEg = e.hop.cEg ∧
     p.hop.mac = mac (net e.ia).key (macInput β' ts p.hop.exp p.hop.cIn p.hop.cEg)
 
 /-- the hop entry of `e` carries the MAC of its AS under accumulator `β`; its peer entries under
@@ -55,7 +55,7 @@ theorem chain_snoc (mac : MacFn) (net : Net) (core : Bool) (ts : Nat) (β : Nat)
 
 /-- the entry `extend` appends satisfies `MacAt` for the accumulator `extractBeta` yields -/
 theorem extend_macAt (mac : MacFn) (net : Net) (s : PSeg) (a exp ingress egress : Nat)
-    (peers : List Nat) :
+    (peers : List Nat) (hpe : PeerIfs net a peers) :
     ∃ e, (extend mac net s a exp ingress egress peers).entries = s.entries ++ [e] ∧
       e.ia = a ∧ e.hop.cIn = ingress ∧ e.hop.cEg = egress ∧
       MacAt mac net s.ts (extractBeta s.s0 (sig s.entries)) e := by
@@ -63,11 +63,11 @@ theorem extend_macAt (mac : MacFn) (net : Net) (s : PSeg) (a exp ingress egress 
   · rfl
   · intro p hp
     simp only [List.mem_filterMap] at hp
-    obtain ⟨q, _, hq⟩ := hp
+    obtain ⟨q, hqm, hq⟩ := hp
     split at hq
     · rename_i f hf
       cases hq
-      exact ⟨f, hf, rfl, rfl, rfl, rfl⟩
+      exact ⟨f, hf, hpe q hqm f hf, rfl, rfl, rfl, rfl⟩
     · cases hq
 
 /-- invariant of beaconing -/
@@ -78,8 +78,8 @@ theorem beaconed_chain (mac : MacFn) (net : Net) (core : Bool) (b : PSeg) (a i :
     (∃ last f, b.entries.getLast? = some last ∧ (net last.ia).iface last.hop.cEg = some f ∧
       f.lt = beaconLink core ∧ f.nbr = a ∧ f.nbrIf = i ∧ last.hop.cEg ≠ 0) := by
   induction h with
-  | originate a s0 ts exp e peers f hf hlt he =>
-    obtain ⟨x, hx, hia, hin, heg, hm⟩ := extend_macAt mac net ⟨s0, ts, []⟩ a exp 0 e peers
+  | originate a s0 ts exp e peers f hf hlt he hpe =>
+    obtain ⟨x, hx, hia, hin, heg, hm⟩ := extend_macAt mac net ⟨s0, ts, []⟩ a exp 0 e peers hpe
     simp only [List.nil_append] at hx
     have hts : (extend mac net ⟨s0, ts, []⟩ a exp 0 e peers).ts = ts := rfl
     have hs0 : (extend mac net ⟨s0, ts, []⟩ a exp 0 e peers).s0 = s0 := rfl
@@ -88,9 +88,9 @@ theorem beaconed_chain (mac : MacFn) (net : Net) (core : Bool) (b : PSeg) (a i :
     · simpa [Chain, sig, extractBeta] using hm
     · rw [hia, heg]; exact hf
     · rw [heg]; exact he
-  | propagate b a i exp e peers f _ hf hlt he ih =>
+  | propagate b a i exp e peers f _ hf hlt he hpe ih =>
     obtain ⟨hc, ⟨first, hfirst, hfin⟩, ⟨last, fl, hlast, hfl, hfllt, hnbr, hnif, hne⟩⟩ := ih
-    obtain ⟨x, hx, hia, hin, heg, hm⟩ := extend_macAt mac net b a exp i e peers
+    obtain ⟨x, hx, hia, hin, heg, hm⟩ := extend_macAt mac net b a exp i e peers hpe
     have hts : (extend mac net b a exp i e peers).ts = b.ts := rfl
     have hs0 : (extend mac net b a exp i e peers).s0 = b.s0 := rfl
     rw [hx, hts, hs0]
@@ -111,10 +111,10 @@ theorem registered_chain (mac : MacFn) (net : Net) (core : Bool) (s : PSeg)
     (∃ last, s.entries.getLast? = some last ∧ last.hop.cEg = 0) ∧
     2 ≤ s.entries.length := by
   cases h with
-  | terminate b a i exp peers hb =>
+  | terminate b a i exp peers hb hpe =>
     obtain ⟨hc, ⟨first, hfirst, hfin⟩, ⟨last, fl, hlast, hfl, hfllt, hnbr, hnif, hne⟩⟩ :=
       beaconed_chain mac net core b a i hb
-    obtain ⟨x, hx, hia, hin, heg, hm⟩ := extend_macAt mac net b a exp i 0 peers
+    obtain ⟨x, hx, hia, hin, heg, hm⟩ := extend_macAt mac net b a exp i 0 peers hpe
     have hts : (extend mac net b a exp i 0 peers).ts = b.ts := rfl
     have hs0 : (extend mac net b a exp i 0 peers).s0 = b.s0 := rfl
     rw [hx, hts, hs0]
